@@ -46,6 +46,14 @@ NP_KERNELS = [
     ('msm/tests.py', 'MsmTests', None, [
         ('_calc_times', dict(params=['Int', 'Int'], ret='L[Int]')),
     ]),
+    ('msm/timescales.py', 'MsmCummat', None, [
+        ('_get_cummat', dict(
+            params=['L[L[Rat]]'], ret='T[L[L[Rat]],L[L[Int]]]',
+            # the first statement (`msm, _ = StateTraj(trajs).estimate_markov_model(lagtime)`) is replaced by the parameter `msm`
+            replace_params=['msm'], skip=1,
+            locals={'idx_sort': 'L[Int]', 'npositive': 'Int'},
+            externals={'np.argsort': ('ext_argsort', ['L[Rat]'], 'L[Int]')})),
+    ]),
     ('statetraj.py', 'StateTrajHS', 'LumpedStateTraj', [
         ('_estimate_markov_model', dict(
             params=['L[L[Rat]]'], ret='L[L[Rat]]',
@@ -144,6 +152,19 @@ class NpFn(Fn):
                                                                      kwarg=node.args.kwarg, defaults=node.args.defaults),
                                    body=node.body, decorator_list=[], returns=None, type_comment=None, lineno=node.lineno,
                                    col_offset=node.col_offset)
+        if sig.get('replace_params') is not None or sig.get('skip'):
+            body = list(node.body)
+            k = 0
+            while k < len(body) and isinstance(body[k], ast.Expr) and isinstance(body[k].value, ast.Constant) and isinstance(body[k].value.value, str):
+                k += 1
+            body = body[:k] + body[k + sig.get('skip', 0):]
+            names = sig.get('replace_params')
+            a = node.args
+            if names is not None:
+                a = ast.arguments(posonlyargs=[], args=[ast.arg(arg=n) for n in names], vararg=None, kwonlyargs=[], kw_defaults=[],
+                                  kwarg=None, defaults=[])
+            node = ast.FunctionDef(name=node.name, args=a, body=body, decorator_list=[], returns=None, type_comment=None,
+                                   lineno=node.lineno, col_offset=node.col_offset)
         Fn.__init__(self, node, dict(sig, params=sig['params']), module_fns, src_file, ns)
         self.ptypes = [parse_type(p) for p in sig['params']]
         self.ret = parse_type(sig['ret'])
@@ -416,11 +437,24 @@ class NpFn(Fn):
                 if len(sl.elts) == 1 and full(sl.elts[0]):
                     v, tv = sub(e.value)
                     return pre, v, tv
+            if isinstance(sl, ast.Slice) and sl.lower is None and sl.upper is None and isinstance(sl.step, ast.UnaryOp) \
+                    and isinstance(sl.step.op, ast.USub) and isinstance(sl.step.operand, ast.Constant) and sl.step.operand.value == 1:
+                v, tv = sub(e.value)
+                if not is_vec(tv):
+                    raise Unsupported('%s: [::-1] of %s' % (self.name, tv))
+                return pre, '(npReverse %s)' % v, tv
             ts = None
             try:
                 ts = self.typeof(sl) if not isinstance(sl, (ast.Slice, ast.Tuple)) else None
             except Unsupported:
                 ts = None
+            if ts == ('L', 'Int'):
+                v, tv = sub(e.value)
+                m, _ = sub(sl)
+                if not is_vec(tv):
+                    raise Unsupported('%s: fancy read of %s' % (self.name, tv))
+                c, t = eff('npTake %s %s' % (v, m), tv)
+                return pre, c, t
             if ts == ('L', 'Bool'):
                 v, tv = sub(e.value)
                 m, _ = sub(sl)
@@ -442,6 +476,35 @@ class NpFn(Fn):
             args = e.args
             kw = {k.arg: k.value for k in e.keywords}
             meth = e.func.attr if isinstance(e.func, ast.Attribute) else None
+            if name == 'np.any' and len(args) == 1:
+                c, t = sub(args[0])
+                c, t = self.truth(c, t)
+                if is_mat(t):
+                    return pre, '(npAny2 %s)' % c, 'Bool'
+                if is_vec(t):
+                    return pre, '((%s).any id)' % c, 'Bool'
+                raise Unsupported('%s: np.any of %s' % (self.name, t))
+            if name in ('np.empty_like', 'np.zeros_like') and args and is_mat(self.typeof(args[0])):
+                c, t = sub(args[0])
+                dt = kw.get('dtype')
+                dtn = self._callname(ast.Call(func=dt, args=[], keywords=[])) if isinstance(dt, ast.Attribute) else None
+                if dt is None:
+                    return pre, '(npFullLike2 %s (0 : %s))' % (c, elem(t)), t
+                if dtn and 'int' in dtn:
+                    return pre, '(npFullLike2 %s (0 : Int))' % c, ('L', ('L', 'Int'))
+                if dtn and 'float' in dtn:
+                    return pre, '(npFullLike2 %s (0 : Rat))' % c, ('L', ('L', 'Rat'))
+                raise Unsupported('%s: empty_like dtype' % self.name)
+            if name == 'np.cumsum' and len(args) == 1:
+                c, t = sub(args[0])
+                if t != ('L', 'Rat'):
+                    raise Unsupported('%s: cumsum of %s' % (self.name, t))
+                return pre, '(npCumsum %s)' % c, t
+            if name == 'np.count_nonzero' and len(args) == 1:
+                c, t = sub(args[0])
+                if t != ('L', 'Rat'):
+                    raise Unsupported('%s: count_nonzero of %s' % (self.name, t))
+                return pre, '(npCountNonzero %s)' % c, 'Int'
             if name == 'np.atleast_2d':
                 c, t = sub(args[0])
                 if not is_mat(t):
@@ -708,7 +771,7 @@ class NpFn(Fn):
                 arr = self.lname(t.value.id)
                 sl = t.slice
                 # fancy pair assignment  m[(is, js)] = v
-                if isinstance(sl, ast.Tuple) and len(sl.elts) == 2 and is_mat(ta):
+                if isinstance(sl, ast.Tuple) and len(sl.elts) == 2 and is_mat(ta) and not any(isinstance(x, ast.Slice) for x in sl.elts):
                     pi, ci, ti = self.ex(sl.elts[0])
                     pj, cj, tj = self.ex(sl.elts[1])
                     if ti == ('L', 'Int') and tj == ('L', 'Int'):
@@ -717,6 +780,34 @@ class NpFn(Fn):
                         emit_pre(pv)
                         out.append(sp + '%s ← npSetPairs %s %s %s %s' % (arr, arr, ci, cj, self.coerce(cv, tv, elem(ta))))
                         return out
+                if isinstance(sl, ast.Tuple) and len(sl.elts) == 2 and is_mat(ta):
+                    i0, i1 = sl.elts
+                    full0 = isinstance(i0, ast.Slice) and i0.lower is None and i0.upper is None and i0.step is None
+                    if full0 and not isinstance(i1, ast.Slice):
+                        pj, cj, tj = self.ex(i1)
+                        if tj == 'Int':
+                            emit_pre(pj)
+                            pv, cv, tv = self.ex(s.value, want=elem(ta))
+                            emit_pre(pv)
+                            out.append(sp + '%s ← npSetCol %s %s %s' % (arr, arr, cj, self.coerce(cv, tv, elem(ta))))
+                            return out
+                    if not isinstance(i0, ast.Slice) and isinstance(i1, ast.Slice) and i1.upper is None and i1.step is None and i1.lower is not None:
+                        pi, ci, ti = self.ex(i0)
+                        pl, cl, tl = self.ex(i1.lower)
+                        if ti == 'Int' and tl == 'Int':
+                            emit_pre(pi); emit_pre(pl)
+                            pv, cv, tv = self.ex(s.value, want=elem(ta))
+                            emit_pre(pv)
+                            out.append(sp + '%s ← npSetRowFrom %s %s %s %s' % (arr, arr, ci, cl, self.coerce(cv, tv, elem(ta))))
+                            return out
+                if not isinstance(sl, (ast.Slice, ast.Tuple)) and is_mat(ta):
+                    pi, ci, ti = self.ex(sl)
+                    if ti == 'Int':
+                        pv, cv, tv = self.ex(s.value)
+                        if is_vec(tv):
+                            emit_pre(pi); emit_pre(pv)
+                            out.append(sp + '%s ← npSetRow %s %s %s' % (arr, arr, ci, self.coerce(cv, tv, ta[1])))
+                            return out
                 if not isinstance(sl, (ast.Slice, ast.Tuple)):
                     pm, cm, tm = self.ex(sl)
                     if tm == ('L', 'Bool') and is_vec(ta):
@@ -731,6 +822,9 @@ class NpFn(Fn):
                         emit_pre(pv)
                         out.append(sp + '%s ← npMaskSet2 %s %s %s' % (arr, arr, cm, self.coerce(cv, tv, elem(ta))))
                         return out
+        if isinstance(s, ast.If) and self.typeof(s.test) == 'Int':
+            # truthiness of an integer
+            s = ast.If(test=ast.Compare(left=s.test, ops=[ast.NotEq()], comparators=[ast.Constant(value=0)]), body=s.body, orelse=s.orelse)
         if isinstance(s, (ast.If, ast.For)):
             self.depth += 1
             try:
@@ -882,7 +976,7 @@ def run_module(ns, relfile, emitted, ext_impl):
 
 
 # oracle stand-ins for RUNNING the translated code: the oracle's answer is supplied by the harness in the request
-EXT_IMPL = {'ext_peq': 'MsmVerif.GenCodec.oracleVec "peq"'}
+EXT_IMPL = {'ext_peq': 'MsmVerif.GenCodec.oracleVec "peq"', 'ext_argsort': 'MsmVerif.GenCodec.oracleTable "argsort"'}
 
 
 def translate_all(repo, files, probs):
